@@ -231,6 +231,32 @@ def run(ctx):
     if callers != ["SelectorMatchingVm::exec_for_end_tag"]:
         r.violate("pop_up_to|callers", f"pop_up_to is called from {callers}", None)
 
+    # an end tag can close several levels at once (mis-nested input): counter unwinding must iterate
+    cl = [g for g in mir.fns if g.key.startswith("TypedChildCounterMap::pop_to::{closure")]
+    r.inst("pop_to|iterates")
+    ok = False
+    for g in cl:
+        for bi, t in g.calls(r"Vec::pop$"):
+            nxt = g.succ(bi)
+            if any(bi in g.reachable_blocks(n) for n in nxt):
+                ok = True
+    if not ok:
+        r.violate("pop_to|iterates", "TypedChildCounterMap::pop_to no longer pops in a loop: an end tag that closes more than one nesting level leaves stale nth-of-type counters of the deeper levels in place", cl[0].loc() if cl else None)
+
+    # ------------------------------------------------------------------ R04.7
+    r = ctx.rule("R04.7", "absolute indices: wherever the selector VM derives an id / stack index from `enumerate` (match ids from bit-set words, stack positions, jump indices), the enumeration runs over the whole container — no skipping, filtering or reversing adaptor sits between the container and `enumerate`", "E-MIR", floor=4)
+    SHIFTING = re.compile(r"(skip|skip_while|filter|filter_map|rev|step_by|chain|flat_map|flatten|take_while|map_while|peekable|zip)\(")
+    for f in mir.fns:
+        if mir.is_test_fn(f) or not f.path.startswith("selectors_vm::"):
+            continue
+        for bi, t in f.calls(r"Iterator::enumerate$|::enumerate$"):
+            chain = f.deep(t["args"][0])
+            key = f.key + "|enumerate"
+            r.inst(key, sample={"fn": f.key, "over": chain[:120]})
+            m = SHIFTING.search(chain)
+            if m:
+                r.violate(key, f"{f.key}: `enumerate` is applied after `{m.group(1)}` ({chain[:100]}): the indices are relative to the remaining items, so ids / positions computed from them are shifted (wrong handler or stack entry)", f.loc())
+
     # ------------------------------------------------------------------ R04.5
     r = ctx.rule("R04.5", "void / self-closing: HTML elements are popped immediately iff void, foreign elements are pushed iff not self-closing", "E-AST", floor=3)
     gsd = idx.one("get_stack_directive", owner="Stack")
